@@ -854,10 +854,15 @@ Proof.
   destruct ok; cbn [negb]; [|kret]. specialize (F7 eq_refl).
   assert (U7 : U s7) by (eapply RF_U; [exact F7|assumption]).
   astepd (keepsAll_f _ f_WatchOnly); [kret|].
-  eapply x_call; [apply g_sendPrepareResponse; [|assumption]|].
-  { rewrite HA, (hasAll_RF _ _ F7). exact Ea. }
-  intros [] s9 n9 (R9 & T9). cbn beta.
-  eapply x_conseq; [apply b_checkPrepare; [eapply RI_Inv; [exact R9|assumption]|eapply RI_U; [exact R9|assumption]]|].
+  apply x_get.
+  eapply x_call with (Qx := fun _ s tr => Inv s /\ U s /\ trG G tr).
+  { match goal with |- context[IsPrimary ?x] => destruct (IsPrimary x) end.
+    - apply x_ret. split; [assumption|split; [assumption|apply trG_nil]].
+    - eapply x_conseq; [apply g_sendPrepareResponse; [|assumption]|].
+      { rewrite HA, (hasAll_RF _ _ F7). exact Ea. }
+      cbn. intros [] s9 n9 (R9 & T9). split; [eapply RI_Inv; [exact R9|assumption]|split; [eapply RI_U; [exact R9|assumption]|exact T9]]. }
+  intros [] s9 n9 (I9 & U9 & T9). cbn beta.
+  eapply x_conseq; [apply b_checkPrepare; assumption|].
   cbn. intros [] s10 n10 (I10 & T10). split; [exact I10|trs].
 Qed.
 
@@ -884,8 +889,8 @@ Proof.
   apply x_get. apply x_tget. intros req Hir Hreq.
   eapply x_call with (Qx := fun _ s tr => Inv s /\ U s /\ trG G tr).
   { destruct req as [rq|]; [|apply x_ret; split; [assumption|split; [assumption|trs]]].
-    destruct (p_body rq) as [b|]. 2: (apply x_ret; split; [assumption|split; [assumption|trs]]).
-    destruct b; try (apply x_ret; split; [assumption|split; [assumption|trs]]).
+    destruct (p_body rq) as [b|]. 2: apply x_panic.
+    destruct b; try apply x_panic.
     destruct (negb (hash_eqb (resp_prephash msg) (payload_hash rq))). 2: (apply x_ret; split; [assumption|split; [assumption|trs]]).
     apply x_tset. intros l2 Hi2 Hl2. apply x_modify. apply x_ret. split; [|split; [unfold U in *; cbn; assumption|trs]].
     destruct I2 as (J1 & J2 & J3 & J4 & J5). unfold Inv. cbn. repeat split; auto. eapply tall_set; [exact J1| |exact Hl2]. intros ? ?; discriminate. }
